@@ -42,6 +42,19 @@ def _is_assert_false(st):
     return False
 
 
+def _outcome(test, pol):
+    """branch outcome as condition events: a conjunction taken (or a disjunction refused) is each of its parts taken (refused),
+    so `if a and b:` and `if a: if b:` give the same facts on the path into the body"""
+    if isinstance(test, ast.BoolOp) and ((isinstance(test.op, ast.And) and pol) or (isinstance(test.op, ast.Or) and not pol)):
+        out = []
+        for v in test.values:
+            out += _outcome(v, pol)
+        return out
+    if isinstance(test, ast.UnaryOp) and isinstance(test.op, ast.Not):
+        return _outcome(test.operand, not pol)
+    return [('cond', test, pol)]
+
+
 def enum_paths(stmts, limit=MAX_PATHS):
     """All paths through a statement list."""
     res = []
@@ -76,8 +89,8 @@ def _walk(stmts, prefix, res, limit, k=None):
     elif isinstance(st, ast.Continue):
         res.append(Path(prefix, ('continue',)))
     elif isinstance(st, ast.If):
-        _walk(list(st.body), prefix + [('cond', st.test, True)], res, limit, [rest] + k)
-        _walk(list(st.orelse), prefix + [('cond', st.test, False)], res, limit, [rest] + k)
+        _walk(list(st.body), prefix + _outcome(st.test, True), res, limit, [rest] + k)
+        _walk(list(st.orelse), prefix + _outcome(st.test, False), res, limit, [rest] + k)
     elif isinstance(st, (ast.For, ast.While)):
         # skip the loop
         skipev = prefix + [('loop', st, 'skip')]
